@@ -2082,13 +2082,16 @@ class _ChunkedTransferDecoder:
             return False
 
         if eolIndex > 0:
-            # A trailer header was detected.
+            # A trailer header was detected.  Check the size limit before
+            # taking the line out of the buffer, so that a rejected trailer
+            # section stays rejected if more data is delivered.
+            receivedSize = self._receivedTrailerHeadersSize + eolIndex + 2
+            if receivedSize > self._maxTrailerHeadersSize:
+                raise _MalformedChunkedDataError("Trailer headers data is too long.")
             self._trailerHeaders.append(self._buffer[0:eolIndex])
             del self._buffer[0 : eolIndex + 2]
             self._start = 0
-            self._receivedTrailerHeadersSize += eolIndex + 2
-            if self._receivedTrailerHeadersSize > self._maxTrailerHeadersSize:
-                raise _MalformedChunkedDataError("Trailer headers data is too long.")
+            self._receivedTrailerHeadersSize = receivedSize
             return True
 
         # eolIndex in this part of code is equal to 0
